@@ -249,7 +249,7 @@ fn enc_directives(p: &Pipe) -> (String, String) {
 
 /// The numbers `to_grammar_config.rs` computes for the directives: primary non-terminal looked up in
 /// the UNTRANSFORMED grammar, index function of the UNTRANSFORMED grammar (used to attribute failures
-/// to the listed finding F26: these numbers are kept although the transformation may renumber).
+/// to the listed finding F29: these numbers are kept although the transformation may renumber).
 fn enc_directives_stale(p: &Pipe) -> (String, String) {
     let cfg = &p.pre_cfg;
     let ti = cfg.get_terminal_index_function();
